@@ -43,7 +43,7 @@ class Directive:
 
 
 SUB = ("@ret", "@requires", "@ensures", "@closure", "@loop", "@prefix", "@insert_before", "@recommends",
-       "@decreases", "@nested", "@attr", "@closure_types", "@generics", "@replace", "@loop_begin", "@loop_end", "@adapter")
+       "@decreases", "@nested", "@attr", "@closure_types", "@generics", "@replace", "@loop_begin", "@loop_end", "@adapter", "@inline_snapshot_update")
 
 
 def parse_spec(path: str):
@@ -720,6 +720,72 @@ class Gen:
             if c.kind == "prefix":
                 txt = c.text
                 sp.insert(st[fp.body_open].end, ADD("E10", "\n" + txt))
+            if c.kind == "inline_snapshot_update":
+                # E9: `M.update(STORE, KEY, HEIGHT, |P| -> R { STMTS; Ok(E) })` is replaced by the body of cw-storage-plus 2.0.0
+                # SnapshotMap::update (may_load, action, save -- in that order) with the closure body in place, because the
+                # closure mutates captured locals (unsupported by Verus). The closure body tokens are the real ones.
+                nth = int(c.args[0]) if c.args else 1
+                dep = os.path.expanduser("~/.cargo/registry/src")
+                ok_dep = False
+                for root_, _dirs, files in os.walk(dep):
+                    if root_.endswith("cw-storage-plus-2.0.0/src/snapshot") and "map.rs" in files:
+                        txt = open(os.path.join(root_, "map.rs")).read()
+                        m_ = re.search(r"pub fn update<A, E>\(.*?\n    \}", txt, re.S)
+                        body_ = re.sub(r"\s+", " ", m_.group(0)) if m_ else ""
+                        ok_dep = ("let input = self.may_load(store, k.clone())?; let output = action(input)?; self.save(store, k, &output, height)?; Ok(output)" in body_)
+                if not ok_dep:
+                    raise AnchorLost("E9: cw-storage-plus 2.0.0 SnapshotMap::update source not found or changed")
+                hits = []
+                i = fp.body_open + 1
+                while i < fp.body_close:
+                    if st[i].text == "." and st[i + 1].text == "update" and st[i + 2].text == "(":
+                        hits.append(i)
+                    i += 1
+                if nth < 1 or nth > len(hits):
+                    raise AnchorLost(f"{fid}: inline_snapshot_update #{nth}: {len(hits)} update calls")
+                i = hits[nth - 1]
+                close = rs.match_close(st, i + 2)
+                # receiver = single identifier before '.'
+                recv = st[i - 1]
+                # split args
+                args_ = []; cur_ = []; k = i + 3
+                while k < close:
+                    if st[k].text in rs.OPEN:
+                        e = rs.match_close(st, k); cur_ += list(range(k, e + 1)); k = e + 1; continue
+                    if st[k].text == ",":
+                        args_.append(cur_); cur_ = []
+                    else:
+                        cur_.append(k)
+                    k += 1
+                if cur_: args_.append(cur_)
+                if len(args_) != 4 or st[args_[3][0]].text != "|":
+                    raise AnchorLost(f"{fid}: inline_snapshot_update: unexpected call shape")
+                def txt_(idx): return src[st[idx[0]].start:st[idx[-1]].end]
+                store_t, key_t, height_t = txt_(args_[0]), txt_(args_[1]), txt_(args_[2])
+                cl_ = args_[3]
+                pname = st[cl_[1]].text
+                bo = next(x for x in cl_ if st[x].text == "{")
+                bc = rs.match_close(st, bo)
+                # last expression must be Ok(EXPR)
+                j = bc - 1
+                if st[j].text != ")": raise AnchorLost(f"{fid}: inline_snapshot_update: closure does not end in Ok(..)")
+                depth = 0; q = j
+                while True:
+                    if st[q].text in rs.CLOSE: depth += 1
+                    elif st[q].text in rs.OPEN:
+                        depth -= 1
+                        if depth == 0: break
+                    q -= 1
+                if st[q - 1].text != "Ok": raise AnchorLost(f"{fid}: inline_snapshot_update: closure does not end in Ok(..)")
+                stmts_t = src[st[bo].end:st[q - 1].start]
+                out_t = src[st[q + 1].start:st[j - 1].end]
+                a, b = st[recv.start and i - 1].start, st[close].end
+                a = st[i - 1].start
+                new = (f"{{ let {pname} = {recv.text}.may_load({store_t}, {key_t})?;{stmts_t}let __out = {out_t}; "
+                       f"{recv.text}.save({store_t}, {key_t}, &__out, {height_t})?; Ok::<_, ContractError>(__out) }}")
+                sp.ops = [o for o in sp.ops if not (a <= o[0] and o[1] <= b)]
+                sp.replace(a, b, REP("E9", src[a:b], new))
+                self.rewrites.append({"fn": fid, "rule": "E9", "at": S.line_of(a)})
             if c.kind == "adapter":
                 # E11 (structured): `RECV.iter().any(F)` -> `it_any(&RECV, F)` etc. The receiver and the closure F are the
                 # real tokens; only the adapter call syntax changes. args: kind, ordinal
